@@ -368,11 +368,18 @@ def run(chk, ctx):
     rng = common.Rng(ctx['seed'], 'C02')
     chk.rule = ('kernel cases: (d, axis) over all 15 kernels x random grid kind (uniform/exponential/quadratic/random) x random '
                 'nu, m (distinct per pair), gamma, h, beta, dt, delj switch; non-trivial = distinct (d, axis, shape, grid kind, delj, '
-                'selection on/off, migration on/off); tridiag: random sizes 2..40; const-vs-fn drivers in 1-3 pops; whole short runs (constant, delj trick on '
+                'selection on/off, migration on/off); kernel bodies: the translated statement list of each of the 15 + 5 C kernels run on NON-cubic arrays '
+                '(one grid per axis) against the C function called directly, against stepAxis/preSolve and against a dense solve per line; tridiag: random sizes 2..40; const-vs-fn drivers in 1-3 pops; whole short runs (constant, delj trick on '
                 'through the C kernels with supplied exp values, every parameter time-dependent) vs the model and vs the translated time loop of the driver')
     chk.unproved = ['round-off: agreement of the float kernels with the exact scheme is established numerically at 1e-9 (1e-6 with the delj trick)',
-                    'the C loops/index arithmetic are tied to the model by correspondence (K), not by translation',
+                    'the interiors of compute_dx / compute_dfactor / compute_xInt / compute_delj / compute_abc_nobc are read pointwise (shape flags + K); '
+                    'bounds of the tabulation loops and allocation lengths of the kernels are compared with the expected table, not interpreted',
                     'Cython wrappers with non-square arrays (F-02) are outside the public API and not exercised']
+    chk.assumptions += ['symbolic walk of the kernel bodies in tools/translate.py (`_KernelTr`: which local holds what, loop variables by binding loop)',
+                        'the shared helpers compute_dx / compute_dfactor / compute_xInt / compute_delj / compute_abc_nobc / tridiag_premalloc are given their '
+                        'pointwise meaning (shape flags of `C02_wiring_kernels`)',
+                        'Cython wrappers: the extent handed over as end of the outermost loop of the 2-D/3-D kernels is that of the solved axis (F-02); '
+                        '`C02_kernel_program` assumes it equals the extent of the loop axis (true for the single-grid public API)']
     reps = 2 if tier == 'quick' else 12
     k_thomas(chk, ctx, rng, 40 if tier == 'quick' else 400)
     for rep in range(reps):
@@ -382,6 +389,7 @@ def run(chk, ctx):
                 check_kernel_case(chk, ctx, c)
     from . import c02_precalc
     c02_precalc.run(chk, ctx, rng)
+    k_kernel_programs(chk, ctx, common.Rng(ctx['seed'], 'C02-kernel-programs'), 1 if tier == 'quick' else 5)
     from .integ_common import k_program
     k_program(chk, ctx, common.Rng(ctx['seed'], 'C02-program'), 1 if tier == 'quick' else 4, tier, modes=('const', 'delj', 'delj-one', 'vary'))
     l3_const_fn(chk, ctx, rng, 12 if tier == 'quick' else 60)
@@ -397,3 +405,133 @@ def replay(chk, ctx, data):
         check_kernel_case(chk, ctx, c)
     else:
         run(chk, ctx)
+
+# ------------------------------------------------------------------ round 6: the interiors of the C kernels
+def gen_case_box(rng, d, ax, tier):
+    """NON-cubic array, one grid per axis (different sizes and kinds), otherwise as gen_case"""
+    hi = {1: 12, 2: 7, 3: 5, 4: 4, 5: 3}[d] + (1 if tier == 'thorough' else 0)
+    lo = 3 if d <= 3 else 2
+    while True:
+        shape = [int(rng.integers(lo, hi + 1)) for _ in range(d)]
+        shape[ax] = max(shape[ax], 3)
+        if d == 1 or len(set(shape)) > 1: break
+    grids = []; kinds = []
+    for s in shape:
+        g, kind = gen.grid(rng, s); grids.append(g); kinds.append(kind)
+    phi = gen.density(rng, shape)
+    nu, gamma, h, ms = gen.axis_params(rng, d)
+    beta = gen.loguniform(rng, 0.2, 5) if d == 1 else None
+    dt = gen.loguniform(rng, 1e-5, 1e-1)
+    return dict(d=d, ax=ax, shape=shape, grids=grids, kinds=kinds, phi=phi, nu=nu, gamma=gamma, h=h, ms=ms, beta=beta, dt=dt,
+                use=bool(rng.random() < 0.25))
+
+def model_kprog(driver, c, name, end_axis, eps=None):
+    line = ' '.join(['kprog', name, '-' if end_axis is None else str(end_axis), '1' if c['use'] else '0', rat(c['dt']), rat(c['nu']),
+                     rat(c['gamma']), rat(c['h']), rat(c['beta']) if c['beta'] is not None else '-', fmt_list(c['ms']),
+                     fmt_grids(c['grids']), fmt_nd(eps) if eps is not None else '-', fmt_nd(c['phi'])])
+    out = driver.ask(line)
+    if not out.startswith('ok '): return None, out
+    return parse_nd(out[3:])[0], out
+
+def k_kernel_programs(chk, ctx, rng, reps):
+    """K + L3 for the kernel BODIES (loop nests, flat indices, call arguments, guards):
+       * `kprog`: the TRANSLATED body (Generated/Coeffs.lean `kernelProgs`, resolved, run by `KProg.run` on the flat array) against
+         the compiled C function called directly on NON-cubic arrays with a different grid per axis, and against `stepAxis` (which
+         `C02_kernel_program` proves it equals); the same through the Cython wrapper on a cubic array;
+       * L3: the documented scheme line by line (dense solve, other coordinates in axis order) against that C call;
+       * the five pre-computed-coefficient kernels: `kprogpre` against the C function, `preSolve`, and a dense solve per line."""
+    from .integ_common import CKernels
+    dadi = ctx['dadi']; driver = ctx['driver']
+    ck = CKernels(ctx)
+    if not ck.ok:
+        chk.stat('ckernels:unavailable'); chk.notes.append('direct C calls unavailable: ' + ck.why)
+    have_driver = driver is not None and driver.p is not None
+    if have_driver:
+        out = driver.ask('kprogtable')
+        for item in (out[3:].split() if out.startswith('ok ') else []):
+            nm, _, v = item.partition('=')
+            chk.stat('kprog-table:%s' % ('canonical' if v == '1' else 'differs'))
+    for rep in range(reps):
+        for d in range(1, 6):
+            for ax in range(d):
+                name = 'implicit_%dD%s' % (d, AX[ax])
+                others = [l for l in range(d) if l != ax]
+                # ---- the C function itself, non-cubic
+                c = gen_case_box(rng, d, ax, ctx['tier'])
+                eps = None; rtol = 1e-9
+                if c['use']:
+                    eps, tmin, tmax = eps_array(c['phi'], c['grids'], ax, c['nu'], c['ms'], c['gamma'], c['h'], c['beta'])
+                    if tmax > 300 or tmin < 1e-2:
+                        c['use'] = False; eps = None
+                    else:
+                        rtol = 1e-6
+                impl = ck.call(name, d, ax, c['phi'], grids=c['grids'], nu=c['nu'], ms=c['ms'], gamma=c['gamma'], h=c['h'],
+                               beta=c['beta'], dt=c['dt'], use=c['use'])
+                if impl is None:
+                    chk.stat('ckernels:skipped')
+                else:
+                    ref, _, _ = dense_step(c['phi'], c['grids'], ax, c['nu'], c['ms'], c['gamma'], c['h'], c['beta'], c['dt'], c['use'])
+                    chk.l3(('c-call', d, ax, tuple(c['shape']), c['use']))
+                    ok, err, scale = close(impl, ref, rtol=rtol)
+                    if not ok:
+                        chk.fail('%s:c-call:dense' % name, 'the C function %s on a %s array (one grid per axis) differs from the documented scheme '
+                                 'solved line by line by %.3g (scale %.3g)' % (name, 'x'.join(map(str, c['shape'])), err, scale), small(c))
+                    if have_driver:
+                        model, raw = model_kprog(driver, c, name, others[0] if others else None, eps)
+                        step, raw2 = model_step(driver, c, eps)
+                        if model is None or step is None:
+                            chk.k_bad('kprog:' + name, small(c), None, raw if model is None else raw2, None)
+                        else:
+                            ok1, e1, _ = close(impl, model, rtol=rtol)
+                            ok2, e2, _ = close(model, step, rtol=1e-12)
+                            if ok1 and ok2: chk.k_ok('kprog:' + name)
+                            elif not ok1: chk.k_bad('kprog:' + name, small(c), impl, model, e1)
+                            else: chk.k_bad('kprog-vs-stepAxis:' + name, small(c), model, step, e2)
+                # ---- through the Cython wrapper, cubic
+                if have_driver and rep == 0:
+                    c = gen_case(rng, d, ax, 'quick'); c['use'] = False
+                    try:
+                        impl = call_kernel(dadi, d, ax, c['phi'], c['grids'], c['nu'], c['ms'], c['gamma'], c['h'], c['beta'], c['dt'], False)
+                    except Exception as e:
+                        chk.fail('%s:raises:%s' % (name, type(e).__name__), '%s raises %r' % (name, e), small(c)); continue
+                    model, raw = model_kprog(driver, c, name, None)
+                    if model is None: chk.k_bad('kprog-wrapper:' + name, small(c), None, raw, None)
+                    else:
+                        ok1, e1, _ = close(impl, model, rtol=1e-9)
+                        if ok1: chk.k_ok('kprog-wrapper:' + name)
+                        else: chk.k_bad('kprog-wrapper:' + name, small(c), impl, model, e1)
+        # ---- pre-computed-coefficient kernels
+        for d in (2, 3):
+            for ax in range(d):
+                name = 'implicit_precalc_%dD%s' % (d, AX[ax])
+                others = [l for l in range(d) if l != ax]
+                while True:
+                    shape = [int(rng.integers(3, 7 if d == 2 else 6)) for _ in range(d)]
+                    if len(set(shape)) > 1: break
+                a = -rng.uniform(0, 2, shape); cc = -rng.uniform(0, 2, shape)
+                b = np.abs(a) + np.abs(cc) + rng.uniform(0.1, 1, shape)
+                phi = gen.density(rng, shape); dt = gen.loguniform(rng, 1e-4, 1e-1)
+                inp = dict(name=name, shape=shape, dt=dt, a=a, b=b, c=cc, phi=phi)
+                impl = ck.call(name, d, ax, phi, dt=dt, coef=[np.ascontiguousarray(a), np.ascontiguousarray(b), np.ascontiguousarray(cc)])
+                if impl is None:
+                    chk.stat('ckernels:skipped'); continue
+                ref = np.empty_like(phi); N = shape[ax]
+                for oi in itertools.product(*[range(shape[l]) for l in others]):
+                    sl = list(oi); sl.insert(ax, slice(None)); sl = tuple(sl)
+                    A = np.diag(b[sl] + 1 / dt) + np.diag(a[sl][1:], -1) + np.diag(cc[sl][:-1], 1)
+                    ref[sl] = np.linalg.solve(A, phi[sl] / dt)
+                chk.l3(('c-call-pre', d, ax, tuple(shape)))
+                ok, err, scale = close(impl, ref, rtol=1e-9)
+                if not ok:
+                    chk.fail('%s:c-call:dense' % name, 'the C function %s on a %s array differs from solving (a, b + 1/dt, c) x = phi/dt line by line '
+                             'by %.3g (scale %.3g)' % (name, 'x'.join(map(str, shape)), err, scale), inp)
+                if have_driver:
+                    out = driver.ask(' '.join(['kprogpre', name, str(others[0]), rat(dt), fmt_nd(a), fmt_nd(b), fmt_nd(cc), fmt_nd(phi)]))
+                    out2 = driver.ask(' '.join(['presolve', str(ax), rat(dt), fmt_nd(a), fmt_nd(b), fmt_nd(cc), fmt_nd(phi)]))
+                    if not (out.startswith('ok ') and out2.startswith('ok ')):
+                        chk.k_bad('kprogpre:' + name, inp, None, out if not out.startswith('ok ') else out2, None); continue
+                    model = parse_nd(out[3:])[0]; pre = parse_nd(out2[3:])[0]
+                    ok1, e1, _ = close(impl, model, rtol=1e-9); ok2, e2, _ = close(model, pre, rtol=1e-12)
+                    if ok1 and ok2: chk.k_ok('kprogpre:' + name)
+                    elif not ok1: chk.k_bad('kprogpre:' + name, inp, impl, model, e1)
+                    else: chk.k_bad('kprogpre-vs-preSolve:' + name, inp, model, pre, e2)
